@@ -251,6 +251,8 @@ func main() {
 		cmdAllotScale(os.Args[2:])
 	case "soups":
 		cmdSoups(os.Args[2:])
+	case "size-docs":
+		cmdSizeDocs(os.Args[2:])
 	case "scale-sem":
 		cmdScaleSem(os.Args[2:])
 	case "sem-file":
